@@ -120,7 +120,13 @@ def gen_big(nfun, nstr, nstmt):
     return "".join(out)
 
 
-def build_corpus(tier):
+def _accepted(tree, lnk, work, program):
+    cfg = dict((n, v[0]) for n, v in DIMS)
+    o = run_cell(tree.root, lnk, program, cfg, os.path.join(work, "fit"), keep=True)
+    return o["nvm"] is not None and o["genc"] is not None
+
+
+def build_corpus(tier, tree, lnk, work):
     """Returns (core programs, names of the quick subset)."""
     progs = []
     for p in corpus.hand_programs():
@@ -136,18 +142,28 @@ def build_corpus(tier):
     progs.append(prog("g_big", {"main.nano": gen_big(120, 400, 1500)}, origin="generated: 120 functions, 400 strings, one 1500-statement function"))
     progs.append(prog("g_many", {"main.nano": gen_big(40, 100, 12)}, origin="generated: 40 functions, 100 strings"))
     # enumerator batches: a leading block and an evenly strided block of every layer (deterministic slices of the
-    # exhaustive enumeration, prefix and infix spelling)
+    # exhaustive enumeration; prefix and infix spelling).  The block length is the largest of 120/60/30/15 that both
+    # tools accept (a batch can exceed a tool limit or contain a case of an open front-end finding).
     layers = ["layer_E", "layer_S", "layer_F", "layer_D", "layer_A", "op_matrix", "effect_order"]
     for ln in layers:
         cases = lc.all_cases("quick", [ln])
-        k = 120
-        head = cases[:k]
-        progs.append(prog("b_%s_head" % ln, {"main.nano": langrun.source_of(head, "prefix")}, origin="enumerator %s[0:%d] prefix" % (ln, len(head))))
-        if tier == "thorough" and len(cases) > 2 * k:
-            step = len(cases) // k
-            strided = cases[k::step][:k]
-            progs.append(prog("b_%s_strided" % ln, {"main.nano": langrun.source_of(strided, "infix")},
-                              origin="enumerator %s[%d::%d] infix, %d cases" % (ln, k, step, len(strided))))
+        variants = [("head", "prefix")]
+        if tier == "thorough" and len(cases) > 240:
+            variants.append(("strided", "infix"))
+        for what, mode in variants:
+            cand = None
+            for k in (120, 60, 30, 15):
+                if what == "head":
+                    sl = cases[:k]
+                    origin = "enumerator %s[0:%d] %s" % (ln, len(sl), mode)
+                else:
+                    step = (len(cases) - k) // k
+                    sl = cases[k::step][:k]
+                    origin = "enumerator %s[%d::%d] %s, %d cases" % (ln, k, step, mode, len(sl))
+                cand = prog("b_%s_%s" % (ln, what), {"main.nano": langrun.source_of(sl, mode)}, origin=origin)
+                if _accepted(tree, lnk, work, cand):
+                    break
+            progs.append(cand)
     quick = ["c_structs", "c_floats", "c_strpool", "k_hashmap", "k_data", "k_builtins", "mm_one", "mm_two", "g_big",
              "d_typeerr", "d_noshadow", "d_shadowfail", "b_layer_S_head", "b_layer_D_head"]
     names = [p["name"] for p in progs]
@@ -512,7 +528,7 @@ def run(tier):
     check_dimensions_are_real(tree, work)
     self_test_comparison(tree, lnk, work)
 
-    core, quick_names = build_corpus(tier)
+    core, quick_names = build_corpus(tier, tree, lnk, work)
     if tier == "quick":
         core = [p for p in core if p["name"] in quick_names]
         configs = lattice(QUICK_LEVELS)
@@ -529,6 +545,7 @@ def run(tier):
     rep.coverage["programs"] = st["judged"]
     rep.coverage["programs_accepted_by_both_tools"] = st["ok_both"]
     rep.coverage["programs_with_diagnostics_only"] = st["judged"] - st["ok_both"]
+    rep.coverage["program_list"] = ["%s%s" % (p["name"], "" if p.get("ok") else " (not accepted by both tools: diagnostics / one artefact only)") for p in core if "sizes" in p]
 
     extra_st = None
     if tier == "thorough" and not rep.out_of_time():
